@@ -26,7 +26,7 @@ ASSUMPTIONS = [
     "all submitters on one host and one tmpfs; clean_stale_locks=False as the docs require for a shared cache",
     "mutual exclusion itself is filelock's O_EXCL protocol (a dependency)",
 ]
-PROBES = ["errored_result_preexisting", "pydrafilelock_waited", "contender_polled_lock", "stall_fired", "switch_while_lock_held", "switch_mid_result_write", "cache_hit_by_late_submitter"]
+PROBES = ["stall_with_empty_lock_marker", "errored_result_preexisting", "pydrafilelock_waited", "contender_polled_lock", "stall_fired", "switch_while_lock_held", "switch_mid_result_write", "cache_hit_by_late_submitter"]
 
 
 def plan(tier, seed):
@@ -43,6 +43,13 @@ def _submit(kind, cache, x, npoints):
         t = workload.Add(x=x, k=3)
     out = t(cache_root=cache, worker="debug", clean_stale_locks=False)
     return {"out": out.out}
+
+
+def _empty_marker(cache):
+    try:
+        return any(n.endswith(".lock") and os.path.getsize(os.path.join(cache, n)) == 0 for n in os.listdir(cache))
+    except OSError:
+        return False
 
 
 def _expected(kind, x):
@@ -176,11 +183,18 @@ def run_case(case, ch, workdir):
             sim.spawn(f"s{i}", _submit, (kind, cache, x, npoints))
         subs = [sim.procs[f"s{i}"] for i in range(nsub)]
         inlock_switch = [0]
+        empty_marker_stall = [False]
 
         def before(p):
             # stalls are placed on a process that currently holds something in flight
             if stall_den and p.steps > 3 and ch.chance(1, stall_den, "stall"):
                 dt = ch.pick([0.05, 0.3, 3.0, 30.0], "stall_dt")
+                if dt >= 2.0 and _empty_marker(cache):
+                    # the stalled process sits between filelock's O_EXCL create and the
+                    # write of its owner record: filelock (by design) lets a contender break
+                    # a marker that stays empty for 2 s
+                    empty_marker_stall[0] = True
+                    sim.probe("stall_with_empty_lock_marker")
                 sim.stall(p, dt)
                 sim.probe("stall_fired")
                 return "skip"
@@ -213,7 +227,7 @@ def run_case(case, ch, workdir):
         sim.probe("switch_while_lock_held", inlock_switch[0])
         res["digest"] = sim.digest()
         res["nontrivial"] = inlock_switch[0] > 0
-        sig = scen
+        sig = scen if not empty_marker_stall[0] else "filelock-empty-marker-window"
         if outcome != "idle":
             violation(res, "liveness", sig, f"submitters still running after {sim.steps} steps / {res['sim_s']:.1f} simulated s: {[repr(p) for p in sim.live()]}")
         enters = {}
